@@ -1128,6 +1128,11 @@ func (e *Env) evalCall(n SCall) Val {
 			return Val{T: IntLit(0), Typ: types.Typ[types.Int]}
 		case "stopped":
 			return Val{T: e.st.stopped, Typ: boolT}
+		case "b64dec":
+			enc := e.eval(n.Args[0])
+			s := e.eval(n.Args[1])
+			x.d.DeclareFun("b64dec", "(declare-fun b64dec (Int String) String)")
+			return Val{T: mk("String", "b64dec", enc.T, s.T), Typ: types.Typ[types.String]}
 		case "memberOf":
 			// memberOf(s, v): v occurs in the slice s
 			sv := e.eval(n.Args[0])
